@@ -608,3 +608,61 @@ VALIDATOR_HARNESSES = [
     (h_validate_kinds, "leaf", ["_validate_int.rejects_bool", "_validate_long.rejects_bool", "_validate_float.rejects_bool",
                                 "_validate_boolean.accepts_bool", "validate_fixed"]),
 ]
+
+
+# ---- container facts (E1) -------------------------------------------------------------------------
+
+RP = "fastavro._read_py"
+
+
+def h_is_avro(m):
+    """is_avro(buffer) is True exactly when the buffer starts with the four magic bytes; never raises"""
+    n = m.choice("n", 0, 6)
+    bs = [m.byte(f"b{i}") for i in range(n)]
+    stream = m.inp(_mk_bytes(m, bs))
+    try:
+        r = m.mod(RP).is_avro(stream)
+    except Exception as e:
+        m.fail("is_avro.no_exception", f"is_avro raised {type(e).__name__}")
+        return
+    magic = [0x4F, 0x62, 0x6A, 0x01]  # 'O' 'b' 'j' 1 : the specification's magic
+    want = z3.And(*[Z(bs[i]) == magic[i] for i in range(4)]) if n >= 4 else z3.BoolVal(False)
+    got = Z(r) if not isinstance(r, bool) else z3.BoolVal(r)
+    m.prove("is_avro.iff_magic", got == want, "is_avro differs from 'starts with Obj\\\\x01'")
+
+
+def h_crc_framing(m):
+    """write_crc32 appends the CRC as 4 bytes big-endian (snappy block framing)"""
+    import binascii
+    crc = m.int("crc", 0, 0xFFFFFFFF)
+    enc = m.mod(ENC)
+    saved = enc.crc32
+    enc.crc32 = lambda data: crc
+    try:
+        out = m.out()
+        enc.BinaryEncoder(out).write_crc32(b"payload")
+    finally:
+        enc.crc32 = saved
+    b = m.byte_terms(out.getvalue())
+    want = [z3.ZeroExt(WIDTH - 8, z3.Extract(8 * (3 - i) + 7, 8 * (3 - i), Z(crc))) for i in range(4)]
+    m.prove("crc32.big_endian", z3.And(*[b[i] == want[i] for i in range(4)]) if len(b) == 4 else z3.BoolVal(False),
+            "CRC suffix is not 4 bytes big-endian")
+
+
+def h_constants(m):
+    rc = m.mod("fastavro._read_common")
+    m.prove("const.magic", rc.MAGIC == b"Obj\x01", "MAGIC")
+    m.prove("const.sync_size", rc.SYNC_SIZE == 16, "SYNC_SIZE")
+    hs = rc.HEADER_SCHEMA
+    ok = (hs["type"] == "record" and [f["name"] for f in hs["fields"]] == ["magic", "meta", "sync"]
+          and hs["fields"][0]["type"]["type"] == "fixed" and hs["fields"][0]["type"]["size"] == 4
+          and hs["fields"][1]["type"] == {"type": "map", "values": "bytes"}
+          and hs["fields"][2]["type"]["type"] == "fixed" and hs["fields"][2]["type"]["size"] == 16)
+    m.prove("const.header_schema", ok, "HEADER_SCHEMA is not the specification's header record")
+
+
+CONTAINER_HARNESSES = [
+    (h_is_avro, "e1", ["is_avro.iff_magic"]),
+    (h_crc_framing, "e1", ["crc32.big_endian"]),
+    (h_constants, "e1", ["const.magic", "const.sync_size", "const.header_schema"]),
+]
